@@ -214,6 +214,18 @@ class ExprGen:
     def pred(self, depth):
         r = self.r
         k = r.random()
+        if k < 0.06:
+            # a number that DEPENDS ON THE CONTEXT NODE: `[E]` is `[position() = E]` for every node separately, and several
+            # nodes may match their own position (round-6 seed C08-G stopped filtering at the first match)
+            return ("numpred", r.choice([
+                ("call", "position", []),
+                ("call", "number", [("path", None, False, [("attribute", ("name", r.choice(["x", "id", "n"])), [])])]),
+                ("bin", "+", ("call", "count", [("path", None, False, [("preceding-sibling", ("*",), [])])]), ("num", "1")),
+                ("bin", "+", ("call", "count", [("path", None, False, [("preceding-sibling", ("node",), [])])]), ("num", "1")),
+                ("call", "string-length", [("call", "name", [])]),
+                ("bin", "-", ("call", "last", []), ("call", "count", [("path", None, False, [("following-sibling", ("*",), [])])])),
+                ("bin", "mod", ("call", "position", []), ("num", "2")),
+            ]))
         if k < 0.3:
             return ("num", r.choice(["1", "2", "3", "1.5", "0", "2.0"]))
         if k < 0.4:
@@ -366,6 +378,10 @@ def spell_pred(p, sp):
     # [n] is short for [position()=n] (2.4, 2.5)
     if not sp.abbrev and p[0] == "num":
         return "[" + sp.sp() + "position" + sp.sp() + "(" + sp.sp() + ")" + sp.sp() + "=" + sp.sp() + p[1] + sp.sp() + "]"
+    if p[0] == "numpred":
+        if sp.abbrev:
+            return "[" + sp.sp() + spell(p[1], sp, 0) + sp.sp() + "]"
+        return "[" + sp.sp() + "position" + sp.sp() + "(" + sp.sp() + ")" + sp.sp() + "=" + sp.sp() + spell(p[1], sp, 4) + sp.sp() + "]"
     return "[" + sp.sp() + spell(p, sp, 0) + sp.sp() + "]"
 
 
